@@ -7,30 +7,75 @@ V = os.path.dirname(os.path.dirname(os.path.abspath(__file__)))
 pats = sys.argv[1:]
 items = []
 for p in sorted(glob.glob(os.path.join(V, "selftest", "mutants", "*.diff"))):
-    items.append((os.path.basename(p)[:-5], os.path.basename(p).split("-")[0], p, "HEAD"))
+    items.append((os.path.basename(p)[:-5], os.path.basename(p).split("-")[0], p, "HEAD", None))
 for meta in sorted(glob.glob(os.path.join(V, "seeded", "*", "meta.json"))):
     m = json.load(open(meta))
     d = os.path.dirname(meta)
-    items.append(("seeded/" + os.path.basename(d), m["property"], os.path.join(d, "patch.diff"), m.get("base_rev", "HEAD")))
+    items.append(("seeded/" + os.path.basename(d), m["property"], os.path.join(d, "patch.diff"), m.get("base_rev", "HEAD"), m.get("base_commit")))
 if pats:
     items = [i for i in items if any(s in i[0] for s in pats)]
 results, missed = {}, []
-for name, prop, patch, rev in items:
+ALSO = {"seeded/C16-Q": ["C19"], "seeded/C09-I": ["C15"]}   # changes that another property's check reports (see their meta.json)
+NOT_CLAIMED = {"seeded/C17-N"}                            # outside every statement on purpose (DESIGN 10.4)
+
+
+_BASE = {}
+import threading
+_BASE_LOCK = threading.Lock()
+
+
+def base_signatures(commit, pr):
+    with _BASE_LOCK:
+        if (commit, pr) not in _BASE:
+            r = subprocess.run([os.path.join(V, "tools", "mutant.py"), "--rev", commit, "--", os.path.join(V, "check"), pr, "--tier", "quick"],
+                               stdout=subprocess.PIPE, stderr=subprocess.STDOUT, text=True, timeout=2400,
+                               env=dict(os.environ, RSIM_NO_EVIDENCE="1", RSIM_REPLAY_DIR=f"/var/tmp/rv-mutant-replays/base-{commit}-{pr}"))
+            _BASE[(commit, pr)] = set(re.findall(r"^violation: (.+)$", r.stdout, re.M))
+        return _BASE[(commit, pr)]
+
+
+def one(item):
+    name, prop, patch, rev, base_commit = item
     t0 = time.time()
-    props = prop if isinstance(prop, list) else [prop]
-    caught_by, sigs = [], []
+    props = (prop if isinstance(prop, list) else [prop]) + ALSO.get(name, [])
+    caught_by, sigs, used = [], [], rev
     for pr in props:
-        r = subprocess.run([os.path.join(V, "tools", "mutant.py"), "--rev", rev, "--patch", patch, "--", os.path.join(V, "check"), pr, "--tier", "quick"],
-                           stdout=subprocess.PIPE, stderr=subprocess.STDOUT, text=True, timeout=1800,
-                           env=dict(os.environ, RSIM_NO_EVIDENCE="1", RSIM_REPLAY_DIR="/var/tmp/rv-mutant-replays"))
+        for attempt_rev in [rev] + ([base_commit] if base_commit else []):
+            r = subprocess.run([os.path.join(V, "tools", "mutant.py"), "--rev", attempt_rev, "--patch", patch, "--", os.path.join(V, "check"), pr, "--tier", "quick"],
+                               stdout=subprocess.PIPE, stderr=subprocess.STDOUT, text=True, timeout=2400,
+                               env=dict(os.environ, RSIM_NO_EVIDENCE="1", RSIM_REPLAY_DIR=f"/var/tmp/rv-mutant-replays/{os.getpid()}-{abs(hash(name)) % 10000}"))
+            if "CalledProcessError" in r.stdout and "patch" in r.stdout:
+                continue  # the patch no longer applies to today's HEAD (a later fix: commit rewrote those lines): use the revision it was written against
+            used = attempt_rev
+            break
         s = re.findall(r"^violation: (.+)$", r.stdout, re.M)
-        if "VIOLATION property=" in r.stdout:
+        if used != rev:
+            # an older base may violate the property by itself (that is why it was repaired): only what the change adds counts
+            s = [x for x in s if x not in base_signatures(used, pr)]
+        if "VIOLATION property=" in r.stdout and s:
             caught_by.append(pr)
             sigs += s
-    results[name] = {"property": props, "caught_by": caught_by, "signatures": sorted(set(sigs))[:6], "seconds": round(time.time() - t0, 1)}
-    print(f"{'CAUGHT' if caught_by else 'MISSED':7s} {name:55s} {sorted(set(sigs))[:3]}", flush=True)
-    if not caught_by:
-        missed.append(name)
+            break
+    return name, {"property": props, "caught_by": caught_by, "signatures": sorted(set(sigs))[:6], "seconds": round(time.time() - t0, 1), "applied_to": used}
+
+
+# neighbours in the work list belong to different properties, so that two running at a time rarely want the same scratch world
+by_prop = {}
+for it in items:
+    by_prop.setdefault(it[1] if isinstance(it[1], str) else it[1][0], []).append(it)
+order = []
+while any(by_prop.values()):
+    for k in sorted(by_prop):
+        if by_prop[k]:
+            order.append(by_prop[k].pop(0))
+from concurrent.futures import ThreadPoolExecutor
+with ThreadPoolExecutor(int(os.environ.get("MUTANT_JOBS", "2"))) as ex:
+    for name, res in ex.map(one, order):
+        results[name] = res
+        ok = bool(res["caught_by"]) or name in NOT_CLAIMED
+        print(f"{'CAUGHT' if res['caught_by'] else ('NOT-CLAIMED' if name in NOT_CLAIMED else 'MISSED'):11s} {name:30s} {res['signatures'][:2]} ({res['applied_to']})", flush=True)
+        if not ok:
+            missed.append(name)
 out = os.path.join(V, "selftest", "mutants", "RESULTS.json")
 old = json.load(open(out)) if os.path.exists(out) and pats else {}
 old.update(results)
